@@ -341,3 +341,39 @@ func VerifC16RebindAfterRead() {
 		verifAssert(err == nil && got == want, "a read after a class attribute changed sees the change")
 	}
 }
+
+// an attribute read on a class (not an instance) also follows that class's linearisation
+//
+//verif:property C16
+//verif:runinit github.com/go-python/gpython/py.init@type.go:1
+//verif:expect looked
+//verif:maxpaths 40000 400000
+func VerifC16ClassRead() {
+	cs, ok := c16Build(3)
+	if !ok {
+		return
+	}
+	for _, t := range []*Type{BaseException, ExceptionType, AttributeError} {
+		_ = t.Ready()
+	}
+	cls := cs[len(cs)-1]
+	for i, c := range cs {
+		if verifChoice("has"+strconv.Itoa(i), 2) == 1 {
+			c.t.Dict["x"] = Int(100 + i)
+		}
+	}
+	got, err := GetAttrString(cls.t, "x")
+	verifReach("looked")
+	want := Object(nil)
+	for _, idx := range cls.lin {
+		if v, has := cs[idx].t.Dict["x"]; has {
+			want = v
+			break
+		}
+	}
+	if want == nil {
+		verifAssert(err != nil && IsException(AttributeError, err), "a missing class attribute raises AttributeError")
+	} else {
+		verifAssert(err == nil && got == want, "a class attribute read finds the first definition along the class's own MRO")
+	}
+}
